@@ -834,3 +834,303 @@ where
     }
 //@ end
 }
+
+impl<N, E, Ty, Ix> StableGraph<N, E, Ty, Ix>
+where
+    Ty: EdgeType,
+    Ix: IndexType,
+{
+    /// taking the weight of live node a turns wf() into wf_p(a) with the same lists
+    pub proof fn lemma_begin_removal(&self, o: &Self, a: int)
+        requires o.wf(), nlive(o.ns(), a), self.es() == o.es(), self.node_count == o.node_count, self.edge_count == o.edge_count,
+            self.free_node == o.free_node, self.free_edge == o.free_edge, self.ns().len() == o.ns().len(),
+            self.ns()[a].weight is None, self.ns()[a].next == o.ns()[a].next,
+            forall|x: int| 0 <= x < o.ns().len() && x != a ==> #[trigger] self.ns()[x] == o.ns()[x],
+        ensures self.wf_p(a), self.outs(a) == o.outs(-1), self.inns(a) == o.inns(-1), self.fnodes() == o.fnodes(),
+    {
+        let ns0 = o.ns(); let ns1 = self.ns(); let es = o.es(); let fl = o.fnodes();
+        assert forall|x: int| listed(ns1, a, x) == listed(ns0, -1, x) by { if 0 <= x < ns0.len() && x != a { assert(ns1[x] == ns0[x]); } }
+        assert forall|k: int, ls: Seq<Seq<int>>| 0 <= k < 2 && #[trigger] slists_ok(ns0, es, k, ls, -1) implies slists_ok(ns1, es, k, ls, a) by {
+            assert forall|x: int| 0 <= x < ns1.len() && listed(ns1, a, x) implies slist(es, ns1[x].next[k], k, #[trigger] ls[x]) && no_dup(ls[x]) by { if x != a { assert(ns1[x] == ns0[x]); } }
+        }
+        assert(free_nodes_ok(ns1, self.free_node.0.ix() as int, fl, a)) by {
+            lemma_nchain_range(ns0, o.free_node.0.ix() as int, fl);
+            assert forall|i: int| 0 <= i < fl.len() implies ns1[#[trigger] fl[i]] == ns0[fl[i]] by { assert(!nlive(ns0, fl[i])); }
+            lemma_nchain_frame(ns0, ns1, o.free_node.0.ix() as int, fl);
+            assert forall|x: int| 0 <= x < ns1.len() && !nlive(ns1, x) && x != a implies #[trigger] fl.contains(x) by { assert(ns1[x] == ns0[x]); }
+        }
+        assert(self.wf_with(o.outs(-1), o.inns(-1), fl, o.fedges(), a));
+        self.lemma_wf_unique(o.outs(-1), o.inns(-1), fl, o.fedges(), a);
+    }
+
+    /// the pending node a has no incident edge left: it is pushed onto the free list
+    pub proof fn lemma_finish_removal(&self, m: &Self, a: int)
+        requires m.wf_p(a), 0 <= a < m.ns().len(), !nlive(m.ns(), a), m.outs(a)[a].len() == 0, m.inns(a)[a].len() == 0, m.node_count >= 1,
+            self.es() == m.es(), self.edge_count == m.edge_count, self.free_edge == m.free_edge, self.node_count == m.node_count - 1,
+            self.ns().len() == m.ns().len(), self.free_node.i() == a,
+            self.ns()[a].weight is None, self.ns()[a].next[0].i() == m.free_node.i(), self.ns()[a].next[1].i() == end_ix::<Ix>(),
+            forall|x: int| 0 <= x < m.ns().len() && x != a ==> (#[trigger] self.ns()[x]).weight == m.ns()[x].weight && self.ns()[x].next[0] == m.ns()[x].next[0],
+            forall|x: int| 0 <= x < m.ns().len() && x != a && x != m.free_node.i() ==> (#[trigger] self.ns()[x]).next[1] == m.ns()[x].next[1],
+            m.free_node.i() != end_ix::<Ix>() ==> self.ns()[m.free_node.i()].next[1].i() == a,
+        ensures self.wf(), self.outs(-1) == m.outs(a), self.inns(-1) == m.inns(a),
+    {
+        let ns0 = m.ns(); let ns1 = self.ns(); let es = m.es(); let fl = m.fnodes(); let fl1 = seq![a] + fl;
+        let out = m.outs(a); let inn = m.inns(a);
+        lemma_nchain_range(ns0, m.free_node.0.ix() as int, fl);
+        assert forall|x: int| nlive(ns1, x) == nlive(ns0, x) by { if 0 <= x < ns0.len() && x != a { assert(ns1[x].weight == ns0[x].weight); } }
+        assert forall|k: int, ls: Seq<Seq<int>>| 0 <= k < 2 && #[trigger] slists_ok(ns0, es, k, ls, a) && ls[a].len() == 0 implies slists_ok(ns1, es, k, ls, -1) by {
+            assert forall|x: int| 0 <= x < ns1.len() && listed(ns1, -1, x) implies slist(es, ns1[x].next[k], k, #[trigger] ls[x]) && no_dup(ls[x]) by {
+                assert(x != a); assert(nlive(ns0, x));
+                // a live node is not the head of the free list
+                if x == m.free_node.i() { assert(fl.len() > 0 && fl[0] == x); assert(!nlive(ns0, fl[0])); }
+                assert(ns1[x].next[0] == ns0[x].next[0] && ns1[x].next[1] == ns0[x].next[1]);
+            }
+            assert forall|x: int| 0 <= x < ns1.len() && !listed(ns1, -1, x) implies (#[trigger] ls[x]).len() == 0 by { }
+            assert forall|e: int| elive(es, e) implies (#[trigger] es[e]).node[k].0.ix() < ns1.len() && listed(ns1, -1, es[e].node[k].0.ix() as int) by {
+                let x = es[e].node[k].0.ix() as int;
+                assert(ls[x].contains(e));
+                assert(x != a);
+            }
+        }
+        assert(free_nodes_ok(ns1, a, fl1, -1)) by {
+            assert forall|i: int| 0 <= i < fl.len() implies ns1[#[trigger] fl[i]].next[0] == ns0[fl[i]].next[0] by { assert(fl[i] != a); }
+            lemma_nchain_frame(ns0, ns1, m.free_node.0.ix() as int, fl);
+            assert(fl1.drop_first() =~= fl);
+            assert(nchain(ns1, a, fl1));
+            assert forall|i: int, j: int| 0 <= i < j < fl1.len() implies fl1[i] != fl1[j] by { if i == 0 { assert(fl1[j] == fl[j - 1]); } else { assert(fl1[i] == fl[i - 1] && fl1[j] == fl[j - 1]); } }
+            assert forall|i: int| 0 <= i < fl1.len() implies 0 <= #[trigger] fl1[i] < ns1.len() && !nlive(ns1, fl1[i]) && fl1[i] != -1 by { if i > 0 { assert(fl1[i] == fl[i - 1]); } }
+            assert forall|i: int, j: int| 0 <= i && j == i + 1 && j < fl1.len() implies ns1[#[trigger] fl1[j]].next[1].0.ix() == #[trigger] fl1[i] by {
+                if i == 0 { assert(fl1[1] == fl[0]); assert(fl[0] == m.free_node.i()); }
+                else { assert(fl1[i] == fl[i - 1] && fl1[j] == fl[j - 1]); assert(fl[j - 1] != fl[0]); assert(ns1[fl[j - 1]].next[1] == ns0[fl[j - 1]].next[1]); assert(ns0[fl[j - 1]].next[1].0.ix() == fl[i - 1]); }
+            }
+            assert forall|x: int| 0 <= x < ns1.len() && !nlive(ns1, x) && x != -1 implies #[trigger] fl1.contains(x) by {
+                if x == a { assert(fl1[0] == a); } else { assert(fl.contains(x)); let i = choose|i: int| 0 <= i < fl.len() && fl[i] == x; assert(fl1[i + 1] == x); }
+            }
+        }
+        assert(self.wf_with(out, inn, fl1, m.fedges(), -1));
+        self.lemma_wf_unique(out, inn, fl1, m.fedges(), -1);
+    }
+
+//@ item src/graph_impl/stable_graph/mod.rs | impl<N, E, Ty, Ix> StableGraph<N, E, Ty, Ix> where Ty: EdgeType, Ix: IndexType | fn remove_node
+    /// Remove `a` from the graph if it exists, and return its weight.
+    /// If it doesn't exist in the graph, return `None`.
+    ///
+    /// The node index `a` is invalidated, but none other.
+    /// Edge indices are invalidated as they would be following the removal of
+    /// each edge with an endpoint in `a`.
+    ///
+    /// Computes in **O(e')** time, where **e'** is the number of affected
+    /// edges, including *n* calls to `.remove_edge()` where *n* is the number
+    /// of edges with an endpoint in `a`.
+    pub fn remove_node(&mut self, a: NodeIndex<Ix>) -> (r: Option<N>)
+        /*+*/requires old(self).wf()
+        ensures final(self).wf(),
+            !nlive(old(self).ns(), a.i()) ==> r is None && final(self).ns() == old(self).ns() && final(self).es() == old(self).es()
+                && final(self).node_count == old(self).node_count && final(self).edge_count == old(self).edge_count
+                && final(self).free_node == old(self).free_node && final(self).free_edge == old(self).free_edge,                      // [remove_node_absent_unchanged]
+            nlive(old(self).ns(), a.i()) ==> ({
+                &&& r == old(self).ns()[a.i()].weight                                                                                // [remove_node_returns_weight]
+                &&& final(self).ns().len() == old(self).ns().len() && final(self).es().len() == old(self).es().len()
+                &&& final(self).ns()[a.i()].weight is None
+                &&& forall|x: int| 0 <= x < old(self).ns().len() && x != a.i() ==> (#[trigger] final(self).ns()[x]).weight == old(self).ns()[x].weight   // [remove_node_other_nodes_keep_index]
+                &&& forall|e: int| elive(final(self).es(), e) ==> elive(old(self).es(), e) && (#[trigger] final(self).es()[e]).weight == old(self).es()[e].weight && final(self).es()[e].node == old(self).es()[e].node   // [remove_node_surviving_edges_keep_index]
+                &&& forall|e: int| elive(old(self).es(), e) ==> (elive(final(self).es(), e) <==> ((#[trigger] old(self).es()[e]).node[0].i() != a.i() && old(self).es()[e].node[1].i() != a.i()))   // [remove_node_takes_exactly_incident_edges]
+                &&& final(self).node_count == old(self).node_count - 1                                                               // [remove_node_count]
+            })/*-*/,
+    {
+        /*+*/let ghost ai = a.i(); let ghost o = *self;/*-*/
+        let node_weight = /*R:D16 self.g.nodes.get_mut(a.index())?.weight.take()? */ match self.g.nodes.get_mut(a.index()) { None => { return None; }, Some(__n) => match __n.weight.take() { None => { proof { assert(self.ns() =~= o.ns()); self.lemma_same_state(&o, -1); } return None; }, Some(__w) => __w } } /*-*/;
+        /*+*/proof { self.lemma_begin_removal(&o, ai); }/*-*/
+        for d in /*+*/it:/*-*/ &DIRECTIONS
+            /*+*/invariant it.seq().len() == 2, it.seq()[0].k() == 0, it.seq()[1].k() == 1,
+                self.wf_p(ai), 0 <= ai < self.ns().len(), !nlive(self.ns(), ai), o.wf(), nlive(o.ns(), ai), a.i() == ai,
+                self.ns().len() == o.ns().len() && self.es().len() == o.es().len(), self.node_count == o.node_count,
+                forall|x: int| 0 <= x < o.ns().len() && x != ai ==> (#[trigger] self.ns()[x]).weight == o.ns()[x].weight,
+                forall|e: int| elive(self.es(), e) ==> elive(o.es(), e) && (#[trigger] self.es()[e]).weight == o.es()[e].weight && self.es()[e].node == o.es()[e].node,
+                forall|e: int| elive(o.es(), e) && (#[trigger] o.es()[e]).node[0].i() != ai && o.es()[e].node[1].i() != ai ==> elive(self.es(), e),
+                it.index@ >= 1 ==> self.outs(ai)[ai].len() == 0,
+                it.index@ >= 2 ==> self.inns(ai)[ai].len() == 0,/*-*/
+        {
+            let k = d.index();
+            /*+*/proof { assert(*d == it.seq()[it.index@]); assert(k == it.index@); }/*-*/
+
+            // Remove all edges from and to this node.
+            loop
+                /*+*/invariant k < 2, k == 0 || k == 1,
+                    self.wf_p(ai), 0 <= ai < self.ns().len(), !nlive(self.ns(), ai), o.wf(), nlive(o.ns(), ai), a.i() == ai,
+                    self.ns().len() == o.ns().len() && self.es().len() == o.es().len(), self.node_count == o.node_count,
+                    forall|x: int| 0 <= x < o.ns().len() && x != ai ==> (#[trigger] self.ns()[x]).weight == o.ns()[x].weight,
+                    forall|e: int| elive(self.es(), e) ==> elive(o.es(), e) && (#[trigger] self.es()[e]).weight == o.es()[e].weight && self.es()[e].node == o.es()[e].node,
+                    forall|e: int| elive(o.es(), e) && (#[trigger] o.es()[e]).node[0].i() != ai && o.es()[e].node[1].i() != ai ==> elive(self.es(), e),
+                    k == 1 ==> self.outs(ai)[ai].len() == 0,
+                ensures (if k == 0 { self.outs(ai)[ai] } else { self.inns(ai)[ai] }).len() == 0,
+                decreases (if k == 0 { self.outs(ai)[ai] } else { self.inns(ai)[ai] }).len()/*-*/
+            {
+                let next = self.g.nodes[a.index()].next[k];
+                /*+*/let ghost lst = if k == 0 { self.outs(ai)[ai] } else { self.inns(ai)[ai] };
+                proof { assert(listed(self.ns(), ai, ai)); assert(slist(self.es(), self.ns()[ai].next[k as int], k as int, lst)); }/*-*/
+                if next == EdgeIndex::end() {
+                    break;
+                }
+                /*+*/let ghost m0 = *self;
+                proof { assert(lst.len() > 0 && lst[0] == next.i()); assert(elive(self.es(), lst[0])); assert(self.es()[next.i()].node[k as int].i() == ai); }/*-*/
+                let ret = self.remove_edge(next);
+                assert(ret.is_some());
+                let _ = ret;
+                /*+*/proof {
+                    assert(m0.wf_p(ai));
+                    let e = next.i(); let x0 = m0.es()[e].node[0].i(); let x1 = m0.es()[e].node[1].i();
+                    assert(m0.outs(ai)[x0].contains(e)); assert(m0.inns(ai)[x1].contains(e));
+                    lemma_no_dup_remove(m0.outs(ai)[x0], pos_of(m0.outs(ai)[x0], e));
+                    lemma_no_dup_remove(m0.inns(ai)[x1], pos_of(m0.inns(ai)[x1], e));
+                    assert forall|j: int| elive(self.es(), j) implies elive(o.es(), j) && (#[trigger] self.es()[j]).weight == o.es()[j].weight && self.es()[j].node == o.es()[j].node by {
+                        assert(j != e); assert(elive(m0.es(), j));
+                    }
+                    assert forall|j: int| elive(o.es(), j) && (#[trigger] o.es()[j]).node[0].i() != ai && o.es()[j].node[1].i() != ai implies elive(self.es(), j) by {
+                        assert(elive(m0.es(), j)); assert(m0.es()[j].node == o.es()[j].node); assert(j != e);
+                    }
+                }/*-*/
+            }
+        }
+
+        /*+*/let ghost m1 = *self;
+        proof {
+            // node_count >= 1: the free slots are duplicate-free, below the bound, and a is not one of them
+            let fl = self.fnodes();
+            if fl.contains(ai) { let i = choose|i: int| 0 <= i < fl.len() && fl[i] == ai; }
+            lemma_nodup_bound_excl(fl, self.ns().len() as int, ai);
+            lemma_nchain_range(self.ns(), self.free_node.0.ix() as int, fl);
+            if fl.len() > 0 { assert(fl[0] != ai); }
+        }/*-*/
+        let node_slot = &mut self.g.nodes[a.index()];
+        //let node_weight = replace(&mut self.g.nodes[a.index()].weight, Entry::Empty(self.free_node));
+        //self.g.nodes[a.index()].next = [EdgeIndex::end(), EdgeIndex::end()];
+        node_slot.next = [self.free_node._into_edge(), EdgeIndex::end()];
+        if self.free_node != NodeIndex::end() {
+            self.g.nodes[self.free_node.index()].next[1] = a._into_edge();
+        }
+        self.free_node = a;
+        self.node_count -= 1;
+        /*+*/proof {
+            self.lemma_finish_removal(&m1, ai);
+            // no live edge touches a any more
+            assert forall|e: int| elive(o.es(), e) implies (elive(self.es(), e) <==> ((#[trigger] o.es()[e]).node[0].i() != ai && o.es()[e].node[1].i() != ai)) by {
+                if elive(m1.es(), e) {
+                    assert(m1.es()[e].node == o.es()[e].node);
+                    let x0 = m1.es()[e].node[0].i(); let x1 = m1.es()[e].node[1].i();
+                    assert(m1.outs(ai)[x0].contains(e)); assert(m1.inns(ai)[x1].contains(e));
+                }
+            }
+        }/*-*/
+
+        Some(node_weight)
+    }
+//@ end
+}
+
+/// following next[k2] in es2 is following next[k] in es on the members (reverse swaps the two link fields)
+pub proof fn lemma_slist_swapdir<E, Ix: IndexType>(es: Seq<Edge<E, Ix>>, es2: Seq<Edge<E, Ix>>, head: EdgeIndex<Ix>, k: int, s: Seq<int>)
+    requires 0 <= k < 2, slist(es, head, k, s), es2.len() == es.len(),
+        forall|i: int| 0 <= i < s.len() ==> es2[#[trigger] s[i]].next[1 - k] == es[s[i]].next[k],
+    ensures slist(es2, head, 1 - k, s)
+    decreases s.len()
+{
+    if s.len() > 0 {
+        let t = s.drop_first();
+        assert forall|i: int| 0 <= i < t.len() implies es2[#[trigger] t[i]].next[1 - k] == es[t[i]].next[k] by { assert(t[i] == s[i + 1]); }
+        assert(es2[s[0]].next[1 - k] == es[s[0]].next[k]);
+        lemma_slist_swapdir(es, es2, es[s[0]].next[k], k, t);
+    }
+}
+/// the effect of `reverse` on one list family
+pub proof fn lemma_reverse_lists<N, E, Ix: IndexType>(ns0: Seq<Node<Option<N>, Ix>>, es0: Seq<Edge<Option<E>, Ix>>, ns1: Seq<Node<Option<N>, Ix>>, es1: Seq<Edge<Option<E>, Ix>>, k: int, ls: Seq<Seq<int>>)
+    requires 0 <= k < 2, slists_ok(ns0, es0, k, ls, -1), ns1.len() == ns0.len(), es1.len() == es0.len(),
+        forall|x: int| 0 <= x < ns0.len() ==> (#[trigger] ns1[x]).weight == ns0[x].weight && (nlive(ns0, x) ==> ns1[x].next[1 - k] == ns0[x].next[k]),
+        forall|j: int| 0 <= j < es0.len() ==> (#[trigger] es1[j]).weight == es0[j].weight && (elive(es0, j) ==> es1[j].next[1 - k] == es0[j].next[k] && es1[j].node[1 - k] == es0[j].node[k]),
+    ensures slists_ok(ns1, es1, 1 - k, ls, -1)
+{
+    assert forall|x: int| #[trigger] listed(ns1, -1, x) == listed(ns0, -1, x) by { }
+    assert forall|j: int| #[trigger] elive(es1, j) == elive(es0, j) by { }
+    assert forall|x: int| 0 <= x < ns1.len() && listed(ns1, -1, x) implies slist(es1, ns1[x].next[1 - k], 1 - k, #[trigger] ls[x]) && no_dup(ls[x]) by {
+        let s = ls[x];
+        assert forall|i: int| 0 <= i < s.len() implies es1[#[trigger] s[i]].next[1 - k] == es0[s[i]].next[k] by { assert(elive(es0, ls[x][i])); }
+        lemma_slist_swapdir(es0, es1, ns0[x].next[k], k, s);
+    }
+    assert forall|x: int, i: int| 0 <= x < ns1.len() && 0 <= i < ls[x].len() implies elive(es1, #[trigger] ls[x][i]) && es1[ls[x][i]].node[1 - k].0.ix() == x by { assert(elive(es0, ls[x][i])); }
+    assert forall|e: int| elive(es1, e) implies (#[trigger] es1[e]).node[1 - k].0.ix() < ns1.len() && listed(ns1, -1, es1[e].node[1 - k].0.ix() as int) by { assert(elive(es0, e)); }
+    assert forall|e: int| elive(es1, e) implies (#[trigger] ls[es1[e].node[1 - k].0.ix() as int]).contains(e) by { assert(elive(es0, e)); }
+}
+
+impl<N, E, Ty, Ix> StableGraph<N, E, Ty, Ix>
+where
+    Ty: EdgeType,
+    Ix: IndexType,
+{
+//@ item src/graph_impl/stable_graph/mod.rs | impl<N, E, Ty, Ix> StableGraph<N, E, Ty, Ix> where Ty: EdgeType, Ix: IndexType | fn reverse
+    /// Reverse the direction of all edges
+    pub fn reverse(&mut self)
+        /*+*/requires old(self).wf()
+        ensures final(self).wf(),                                                                                   // [reverse_keeps_bookkeeping] (both free lists survive)
+            final(self).ns().len() == old(self).ns().len() && final(self).es().len() == old(self).es().len(),
+            final(self).node_count == old(self).node_count && final(self).edge_count == old(self).edge_count,
+            forall|x: int| 0 <= x < old(self).ns().len() ==> (#[trigger] final(self).ns()[x]).weight == old(self).ns()[x].weight,      // [reverse_keeps_nodes]
+            forall|j: int| 0 <= j < old(self).es().len() ==> (#[trigger] final(self).es()[j]).weight == old(self).es()[j].weight,
+            forall|j: int| elive(old(self).es(), j) ==> (#[trigger] final(self).es()[j]).node[0] == old(self).es()[j].node[1] && final(self).es()[j].node[1] == old(self).es()[j].node[0],   // [reverse_swaps_endpoints]
+            final(self).outs(-1) == old(self).inns(-1) && final(self).inns(-1) == old(self).outs(-1)/*-*/,                 // [reverse_swaps_lists]
+    {
+        // swap edge endpoints,
+        // edge incoming / outgoing lists,
+        // node incoming / outgoing lists
+        // vacant slots are skipped: their `next` fields link the free lists
+        /*+*/let ghost es0 = self.es(); let ghost ns0 = self.ns();/*-*/
+        /*R:D6 for edge in &mut self.g.edges */ let mut __i = 0usize; loop 
+            invariant __i <= self.g.edges@.len(), self.g.edges@.len() == es0.len(), self.g.nodes@ == ns0,
+                self.node_count == old(self).node_count, self.edge_count == old(self).edge_count, self.free_node == old(self).free_node, self.free_edge == old(self).free_edge,
+                forall|j: int| 0 <= j < __i ==> (#[trigger] self.g.edges@[j]).weight == es0[j].weight
+                    && (if es0[j].weight is Some { self.g.edges@[j].node[0] == es0[j].node[1] && self.g.edges@[j].node[1] == es0[j].node[0] && self.g.edges@[j].next[0] == es0[j].next[1] && self.g.edges@[j].next[1] == es0[j].next[0] } else { self.g.edges@[j] == es0[j] }),
+                forall|j: int| __i <= j < es0.len() ==> #[trigger] self.g.edges@[j] == es0[j],
+            ensures __i >= self.g.edges@.len(),
+            decreases self.g.edges@.len() - __i/*-*/
+        {
+            /*+*/if __i >= self.g.edges.len() { break; } let edge = &mut self.g.edges[__i]; __i += 1;/*-*/
+            if edge.weight.is_some() {
+                edge.node.swap(0, 1);
+                edge.next.swap(0, 1);
+            }
+        }
+        /*+*/let ghost es1 = self.es();/*-*/
+        /*R:D6 for node in &mut self.g.nodes */ let mut __i = 0usize; loop 
+            invariant __i <= self.g.nodes@.len(), self.g.nodes@.len() == ns0.len(), self.g.edges@ == es1,
+                self.node_count == old(self).node_count, self.edge_count == old(self).edge_count, self.free_node == old(self).free_node, self.free_edge == old(self).free_edge,
+                forall|x: int| 0 <= x < __i ==> (#[trigger] self.g.nodes@[x]).weight == ns0[x].weight
+                    && (if ns0[x].weight is Some { self.g.nodes@[x].next[0] == ns0[x].next[1] && self.g.nodes@[x].next[1] == ns0[x].next[0] } else { self.g.nodes@[x] == ns0[x] }),
+                forall|x: int| __i <= x < ns0.len() ==> #[trigger] self.g.nodes@[x] == ns0[x],
+            ensures __i >= self.g.nodes@.len(),
+            decreases self.g.nodes@.len() - __i/*-*/
+        {
+            /*+*/if __i >= self.g.nodes.len() { break; } let node = &mut self.g.nodes[__i]; __i += 1;/*-*/
+            if node.weight.is_some() {
+                node.next.swap(0, 1);
+            }
+        }
+        /*+*/proof {
+            let ns1 = self.ns(); let out = old(self).outs(-1); let inn = old(self).inns(-1); let fl = old(self).fnodes(); let fe = old(self).fedges();
+            lemma_reverse_lists(ns0, es0, ns1, es1, 0, out);
+            lemma_reverse_lists(ns0, es0, ns1, es1, 1, inn);
+            assert(free_nodes_ok(ns1, self.free_node.0.ix() as int, fl, -1)) by {
+                assert forall|i: int| 0 <= i < fl.len() implies ns1[#[trigger] fl[i]] == ns0[fl[i]] by { assert(!nlive(ns0, fl[i])); }
+                lemma_nchain_frame(ns0, ns1, old(self).free_node.0.ix() as int, fl);
+                assert forall|x: int| #[trigger] nlive(ns1, x) == nlive(ns0, x) by { }
+            }
+            assert(free_edges_ok(es1, self.free_edge, fe)) by {
+                lemma_slist_range(es0, old(self).free_edge, 0, fe);
+                assert forall|i: int| 0 <= i < fe.len() implies (#[trigger] fe[i]) < es1.len() && es1[fe[i]].next[0] == es0[fe[i]].next[0] by { assert(!elive(es0, fe[i])); assert(es1[fe[i]] == es0[fe[i]]); }
+                lemma_slist_frame(es0, es1, old(self).free_edge, 0, fe);
+                assert forall|j: int| #[trigger] elive(es1, j) == elive(es0, j) by { }
+            }
+            assert(self.wf_with(inn, out, fl, fe, -1));
+            self.lemma_wf_unique(inn, out, fl, fe, -1);
+        }/*-*/
+    }
+//@ end
+}
